@@ -28,6 +28,27 @@ class PromiseCore : public std::conditional_t<Shared, SharedCore<V, E>, UniqueCo
   }
 
  private:
+  template <bool SymmetricTransfer>
+  [[nodiscard]] YACLIB_INLINE auto Impl(InlineCore& caller) noexcept {
+    if constexpr (!Shared) {
+      if (!DownCast<BaseCore>(caller).Ready()) {
+        // Head of a lazy pipeline started by another step or coroutine, same as detail::Start:
+        // a caller that delivers a result (Connect) is always ready, one that starts us never is
+        this->_executor->Submit(*this);
+        return Noop<SymmetricTransfer>();
+      }
+    }
+    return Base::template Impl<SymmetricTransfer, Shared>(caller);
+  }
+  [[nodiscard]] InlineCore* Here(InlineCore& caller) noexcept final {
+    return Impl<false>(caller);
+  }
+#if YACLIB_SYMMETRIC_TRANSFER != 0
+  [[nodiscard]] yaclib_std::coroutine_handle<> Next(InlineCore& caller) noexcept final {
+    return Impl<true>(caller);
+  }
+#endif
+
   void Call() noexcept final {
     PromiseT promise{CorePtrT{NoRefTag{}, this}};
     try {
